@@ -19,6 +19,8 @@ STRINGY = (SStr, SDec)
 def is_concrete(v, depth=0):
     if isinstance(v, (Sym, SymSeq, Obj)):
         return False
+    if type(v).__name__ in ('DateVal', 'DeltaVal'):
+        return False
     from .interp import Closure, BoundMethod, NativeMethod
     if isinstance(v, (Closure, BoundMethod, NativeMethod)):
         return False
@@ -186,6 +188,10 @@ _PYOP = {'+': _op.add, '-': _op.sub, '*': _op.mul, '//': _op.floordiv, '%': _op.
 
 def binop(interp, opname, a, b, inplace=False):
     op = _ARITH[opname]
+    from . import dates
+    r = dates.date_binop(interp, op, a, b)
+    if r is not NotImplemented:
+        return r
     if isinstance(a, Obj) or isinstance(b, Obj):
         return obj_binop(interp, op, a, b)
     if not (is_sym(a) or is_sym(b) or isinstance(a, SymSeq) or isinstance(b, SymSeq)):
@@ -224,6 +230,15 @@ def binop(interp, opname, a, b, inplace=False):
             return percent_format(interp, a, b)
         raise Unsupported('symbolic %-format string')
     if is_str(a) and is_intlike(b) and op == '*':
+        if isinstance(a, str) and str(a) == '0':
+            k = int_term(b)
+            z = tm.app('zeros', (k,), tm.STR)
+            if z not in interp.ctx.dec_seen:
+                interp.ctx.dec_seen.add(z)
+                interp.ctx.axioms.append(tm.mk_implies(tm.mk_le(tm.const(0), k), tm.mk_eq(tm.mk_len(z), k)))
+                interp.ctx.axioms.append(tm.mk_implies(tm.mk_le(k, tm.const(0)), tm.mk_eq(z, tm.const(''))))
+                interp.ctx.axioms.append(tm.T('str.in_re', (z, tm.T('re', (), 'RegLan', '(re.* (str.to_re "0"))')), tm.BOOL))
+            return SStr(z)
         raise Unsupported('string repetition with symbolic operand')
     if isinstance(a, SymSeq) or isinstance(b, SymSeq):
         raise Unsupported('sequence op on symbolic-length sequence')
@@ -335,6 +350,11 @@ def bit_binop(interp, op, a, b):
                 if k is not None:  # x & ~(2^k-1) == x - (x mod 2^k)
                     xt = int_term(x)
                     return SInt(tm.mk_sub(xt, tm.mk_mod(xt, tm.const(1 << k))))
+                if m < 0 and (~m) > 0 and ((~m) & ((~m) - 1)) == 0:  # all ones except bit k: clears bit k
+                    b_ = ~m
+                    xt = int_term(x)
+                    bit = tm.mk_mod(tm.mk_div(xt, tm.const(b_)), tm.const(2))
+                    return SInt(tm.mk_sub(xt, tm.mk_mul(bit, tm.const(b_))))
                 if m > 0 and (m & (m - 1)) == 0:  # single bit 2^k
                     xt = int_term(x)
                     bit = tm.mk_mod(tm.mk_div(xt, tm.const(m)), tm.const(2))
@@ -451,9 +471,14 @@ def identical(interp, a, b):
             return False
         if isinstance(a, SBool) and isinstance(b, (SBool, bool)) or isinstance(b, SBool) and isinstance(a, (SBool, bool)):
             return SBool(tm.mk_eq(_bool_t(a), _bool_t(b)))
-        if (is_sym(a) and not is_sym(b) and not isinstance(b, (int, str, float))) or \
-                (is_sym(b) and not is_sym(a) and not isinstance(a, (int, str, float))):
-            return False  # a symbolic int/str is never a sentinel object
+        for x, y in ((a, b), (b, a)):
+            if is_sym(x) and not is_sym(y):
+                if not isinstance(y, (int, str, float)):
+                    return False  # a symbolic int/str is never a sentinel object
+                if isinstance(x, (SInt, SBool, SReal)) and isinstance(y, str):
+                    return False
+                if isinstance(x, (SStr, SDec)) and (isinstance(y, (int, float)) or type(y) is not str):
+                    return False  # plain str value vs number / XlError-like singleton
         raise Unsupported('identity of symbolic values %r is %r' % (a, b))
     return a is b
 
@@ -671,6 +696,10 @@ def str_getitem(interp, s, i):
             if i.step == -1 and i.start is None and i.stop is None:
                 return str_reverse(interp, s)
             raise Unsupported('string slice with step')
+        if i.stop is None and isinstance(i.start, int) and i.start >= 0 and t.op == 'str.++' \
+                and t.args[0].is_const and len(t.args[0].val) >= i.start:
+            r = tm.mk_concat(tm.const(t.args[0].val[i.start:]), *t.args[1:])
+            return r.val if r.is_const else SStr(r)
         lo = tm.const(0) if i.start is None else _norm_index(interp, int_term(i.start), n)
         hi = n if i.stop is None else _norm_index(interp, int_term(i.stop), n)
         ln = tm.mk_sub(hi, lo)
@@ -882,6 +911,12 @@ def _upper_term(interp, t):
         return t
     if t.op == 'app' and t.val == 'upper':
         return t
+    if t.op == 'app' and t.val.startswith('udigits'):
+        return t
+    if t.op == 'app' and t.val == 'zeros':
+        return t
+    if t.op == 'app' and t.val == 'ldigits16':
+        return digits_term(interp, 16, t.args[0], upper=True)
     facts = interp.ctx.ghost.get('caseless', ())
     if t in facts:
         return t
@@ -928,7 +963,7 @@ def str_method(interp, s, name, args, kwargs):
     if name == 'format':
         raise Unsupported('symbolic format string')
     if name == 'zfill' and len(args) == 1:
-        raise Unsupported('zfill')
+        return str_zfill(interp, s, args[0])
     if name == 'isdigit':
         re_ = tm.T('re', (), 'RegLan', '(re.+ (re.range "0" "9"))')
         return SBool(tm.T('str.in_re', (t, re_), tm.BOOL))
@@ -997,15 +1032,7 @@ def _len(interp, v):
 @builtin(int)
 def _int(interp, v=0, base=None):
     if base is not None:
-        hook = interp.hooks.get('int_base')
-        if hook:
-            return hook(interp, v, base)
-        if is_concrete(v) and is_concrete(base):
-            try:
-                return int(v, base)
-            except Exception as ex:
-                interp.raise_(type(ex), *ex.args)
-        raise Unsupported('int(s, base) on symbolic')
+        return int_with_base(interp, v, base)
     return to_int(interp, v)
 
 
@@ -1415,3 +1442,130 @@ def _update_wrapper(interp, wrapper, wrapped, *a, **k):
 @builtin(print)
 def _print(interp, *a, **k):
     return None
+
+
+# ----------------------------------------------------------------------------------
+# digit strings: bin / oct / hex / int(s, base) / zfill  (CPython behaviour axiomatised;
+# every axiom below is sampled against the interpreter by the C20 bounded stage)
+
+_DIGIT_CLASS = {2: '(re.range "0" "1")', 8: '(re.range "0" "7")',
+                16: '(re.union (re.range "0" "9") (re.range "A" "F"))',
+                10: '(re.range "0" "9")'}
+_DIGIT_CLASS_ANYCASE = {2: _DIGIT_CLASS[2], 8: _DIGIT_CLASS[8], 10: _DIGIT_CLASS[10],
+                        16: '(re.union (re.range "0" "9") (re.range "A" "F") (re.range "a" "f"))'}
+_PREFIX = {2: ('0b', '0B'), 8: ('0o', '0O'), 16: ('0x', '0X')}
+_WS = '(re.union (str.to_re " ") (str.to_re "\\u{9}") (str.to_re "\\u{a}") (str.to_re "\\u{b}") (str.to_re "\\u{c}") (str.to_re "\\u{d}"))'
+
+
+def py_int_literal_re(base):
+    """SMT regex of the ASCII strings CPython's int(s, base) accepts (base 2, 8, 10, 16)."""
+    d = _DIGIT_CLASS_ANYCASE[base]
+    body = '(re.++ (re.+ %s) (re.* (re.++ (str.to_re "_") (re.+ %s))))' % (d, d)
+    if base in _PREFIX:
+        p = '(re.opt (re.++ (re.union (str.to_re "%s") (str.to_re "%s")) (re.opt (str.to_re "_"))))' % _PREFIX[base]
+    else:
+        p = '(str.to_re "")'
+    return ('(re.++ (re.* %s) (re.opt (re.union (str.to_re "+") (str.to_re "-"))) %s %s (re.* %s))'
+            % (_WS, p, body, _WS))
+
+
+def digits_term(interp, base, n, upper=True):
+    """Canonical digit string of n >= 0 in `base` (no prefix, no leading zeros)."""
+    name = ('udigits%d' if upper or base <= 10 else 'ldigits%d') % base
+    if n.is_const:
+        s = {2: bin, 8: oct, 16: hex}[base](n.val)[2:]
+        return tm.const(s.upper() if upper else s)
+    t = tm.app(name, (n,), tm.STR)
+    ctx = interp.ctx
+    if t not in ctx.dec_seen:
+        ctx.dec_seen.add(t)
+        ctx.ghost.setdefault('assumptions', set()).add(
+            'CPython bin/oct/hex/int(s,base): canonical digit strings, int(render_b(n), b) == n, len(render_b(n)) <= k <=> n < b**k')
+        ut = tm.app('udigits%d' % base, (n,), tm.STR)
+        ax = ctx.axioms
+        ax.append(tm.mk_le(tm.const(1), tm.mk_len(t)))
+        for k in range(1, 13):
+            ax.append(tm.mk_eq(tm.mk_le(tm.mk_len(t), tm.const(k)), tm.mk_lt(n, tm.const(base ** k))))
+        ax.append(tm.mk_eq(tm.app('parse%d' % base, (t,), tm.INT), n))
+        ax.append(tm.T('str.in_re', (t, tm.T('re', (), 'RegLan', '(re.+ %s)' % (_DIGIT_CLASS if upper or base <= 10 else _DIGIT_CLASS_ANYCASE)[base])), tm.BOOL))
+        ax.append(tm.mk_implies(tm.mk_lt(tm.const(0), n), tm.mk_not(tm.T('str.prefixof', (tm.const('0'), t), tm.BOOL))))
+        ax.append(tm.mk_eq(tm.mk_eq(t, tm.const('0')), tm.mk_eq(n, tm.const(0))))
+        ax.append(tm.mk_eq(tm.mk_eq(t, tm.const('1')), tm.mk_eq(n, tm.const(1))))
+    return t
+
+
+def _render_builtin(base):
+    def f(interp, v):
+        if isinstance(v, (SInt, SBool)):
+            n = int_term(v)
+            pre = _PREFIX[base][0]
+            if interp.ctx.branch(tm.mk_le(tm.const(0), n)):
+                return SStr(tm.mk_concat(tm.const(pre), digits_term(interp, base, n, upper=False)))
+            return SStr(tm.mk_concat(tm.const('-' + pre), digits_term(interp, base, tm.mk_neg(n), upper=False)))
+        if is_sym(v):
+            interp.raise_(TypeError, 'object cannot be interpreted as an integer')
+        try:
+            return {2: bin, 8: oct, 16: hex}[base](v)
+        except Exception as ex:
+            interp.raise_(type(ex), *ex.args)
+    return f
+
+
+BUILTINS[bin] = _render_builtin(2)
+BUILTINS[oct] = _render_builtin(8)
+BUILTINS[hex] = _render_builtin(16)
+
+
+def int_with_base(interp, v, base):
+    if is_sym(base):
+        raise Unsupported('symbolic base')
+    if isinstance(v, (SStr, SDec, SErr)):
+        if base not in (2, 8, 10, 16):
+            raise Unsupported('int(s, %r)' % base)
+        t = str_term(interp, v)
+        ctx = interp.ctx
+        ctx.ghost.setdefault('assumptions', set()).add(
+            'CPython int(s, base) accepts exactly optional blanks/sign/prefix/underscore-separated digits (ASCII inputs)')
+        valid = tm.T('str.in_re', (t, tm.T('re', (), 'RegLan', py_int_literal_re(base))), tm.BOOL)
+        if ctx.branch(valid):
+            r = tm.app('parse%d' % base, (t,), tm.INT)
+            # value bounds on plain digit strings (no sign/prefix/underscore/blank)
+            plain = tm.T('str.in_re', (t, tm.T('re', (), 'RegLan', '(re.+ %s)' % _DIGIT_CLASS_ANYCASE[base])), tm.BOOL)
+            key = ('parse-bounds', r)
+            if key not in ctx.dec_seen:
+                ctx.dec_seen.add(key)
+                ctx.axioms.append(tm.mk_implies(plain, tm.mk_le(tm.const(0), r)))
+                for k in range(1, 13):
+                    ctx.axioms.append(tm.mk_implies(tm.mk_and(plain, tm.mk_le(tm.mk_len(t), tm.const(k))),
+                                                    tm.mk_lt(r, tm.const(base ** k))))
+            return SInt(r)
+        interp.raise_(ValueError, 'invalid literal for int() with base %d' % base)
+    if is_sym(v):
+        interp.raise_(TypeError, "int() can't convert non-string with explicit base")
+    try:
+        return int(v, base)
+    except Exception as ex:
+        interp.raise_(type(ex), *ex.args)
+
+
+def str_zfill(interp, s, k):
+    t = str_term(interp, s)
+    kt = int_term(k)
+    n = tm.mk_len(t)
+    pad = tm.mk_sub(kt, n)
+    z = tm.app('zeros', (pad,), tm.STR)
+    ctx = interp.ctx
+    if z not in ctx.dec_seen:
+        ctx.dec_seen.add(z)
+        ctx.axioms.append(tm.mk_implies(tm.mk_le(tm.const(0), pad), tm.mk_eq(tm.mk_len(z), pad)))
+        ctx.axioms.append(tm.T('str.in_re', (z, tm.T('re', (), 'RegLan', '(re.* (str.to_re "0"))')), tm.BOOL))
+        ctx.ghost.setdefault('assumptions', set()).add('str.zfill on unsigned digit strings: left padding with "0"')
+    return SStr(tm.mk_ite(tm.mk_le(kt, n), t, tm.mk_concat(z, t)))
+
+
+REAL_FUNS_EXTRA = {
+    'udigits2': lambda n: bin(n)[2:], 'udigits8': lambda n: oct(n)[2:], 'udigits16': lambda n: hex(n)[2:].upper(),
+    'ldigits16': lambda n: hex(n)[2:], 'zeros': lambda k: '0' * max(k, 0),
+    'parse2': lambda s: int(s, 2), 'parse8': lambda s: int(s, 8), 'parse16': lambda s: int(s, 16),
+    'parse10': lambda s: int(s, 10),
+}
